@@ -39,11 +39,25 @@ def native_search():
     n = 0
     d = tempfile.mkdtemp(prefix="c16_")
     try:
-        for scenario in ("exit-at-once", "exit-after-yield", "exit-while-saver-sleeps", "connect-fails", "disconnect-fails", "body-raises"):
+        for scenario in ("exit-at-once", "exit-after-yield", "exit-during-slow-first-save", "exit-while-saver-sleeps", "connect-fails", "disconnect-fails", "body-raises"):
             path = os.path.join(d, scenario + ".json")
 
             async def run(scenario=scenario, path=path):
                 tr = native.make_transport()
+                import aiofiles.threadpool as tp
+                import time as _time
+                orig_open = tp.sync_open
+                if scenario == "exit-during-slow-first-save":
+                    def slow_open(*a, **k):
+                        _time.sleep(0.05)
+                        return orig_open(*a, **k)
+                    tp.sync_open = slow_open
+                try:
+                    return await run2(scenario, path, tr)
+                finally:
+                    tp.sync_open = orig_open
+
+            async def run2(scenario, path, tr):
                 if scenario == "connect-fails":
                     async def bad():
                         raise TransportError("no")
@@ -57,7 +71,8 @@ def native_search():
                 err = None
                 try:
                     async with gw:
-                        if scenario == "exit-after-yield":
+                        if scenario in ("exit-after-yield", "exit-during-slow-first-save"):
+                            await asyncio.sleep(0)
                             await asyncio.sleep(0)
                         if scenario == "exit-while-saver-sleeps":
                             for _ in range(5):
@@ -75,6 +90,7 @@ def native_search():
                 if left:
                     return f"{scenario}: {left} background task(s) left running"
                 if scenario not in ("connect-fails", "body-raises"):
+                    await asyncio.sleep(0.15)  # a detached writer would overwrite the final save by now
                     with open(path) as f:
                         saved = json.load(f)
                     if "7" not in saved:
